@@ -1,6 +1,7 @@
 package frontarea
 
 import (
+	"fmt"
 	"os"
 	"strconv"
 	"strings"
@@ -13,13 +14,14 @@ import (
 // every other production, bare and parenthesised); spec/Frontend/ReadOnlyGate.tla prints clause skeletons.  The check
 // writes both into one ndjson file and names it in VH_GRAMMAR; without the variable the grammar corpus is empty.
 type grammarRec struct {
-	Cls     string   `json:"cls"`
-	Outer   string   `json:"outer"`
-	Hole    int      `json:"hole"`
-	Inner   string   `json:"inner"`
-	Paren   bool     `json:"paren"`
-	Toks    []string `json:"toks"`
-	Clauses []Clause `json:"clauses"`
+	Cls     string     `json:"cls"`
+	Outer   string     `json:"outer"`
+	Hole    int        `json:"hole"`
+	Inner   string     `json:"inner"`
+	Paren   bool       `json:"paren"`
+	Toks    []string   `json:"toks"`
+	Clauses []Clause   `json:"clauses"`
+	Steps   [][]string `json:"steps"` // cls "with": per WITH clause, what happens to n, r, m, p
 }
 
 // every place an expression can stand, with a node, a relationship, a second node and a path in scope
@@ -70,7 +72,7 @@ func grammarTextsSk(perExpr, stride, skStride int, skParams bool) []fuzzInput {
 		return nil
 	}
 	var out []fuzzInput
-	n2, nsk := 0, 0
+	n2, nsk, nw := 0, 0, 0
 	for _, r := range tr.ReadLines[grammarRec](path) {
 		switch {
 		case len(r.Clauses) > 0:
@@ -93,6 +95,17 @@ func grammarTextsSk(perExpr, stride, skStride int, skParams bool) []fuzzInput {
 			for _, pos := range gramPositions {
 				out = append(out, fuzzInput{text: strings.ReplaceAll(pos, "%s", e), class: "grammar:expr1"})
 			}
+		case r.Cls == "with":
+			nw++
+			if stride > 1 && nw%stride != 0 {
+				continue
+			}
+			out = append(out, fuzzInput{text: renderWith(r.Steps), class: "grammar:with"})
+		case r.Cls == "chain":
+			e := joinToks(r.Toks)
+			for _, pos := range gramPositions[:3] {
+				out = append(out, fuzzInput{text: strings.ReplaceAll(pos, "%s", e), class: "grammar:chain"})
+			}
 		case r.Cls == "expr2":
 			n2++
 			if stride > 1 && n2%stride != 0 {
@@ -112,4 +125,40 @@ func grammarTextsSk(perExpr, stride, skStride int, skParams bool) []fuzzInput {
 		}
 	}
 	return out
+}
+
+// renderWith writes a projection pipeline of WithGen.tla: a MATCH binding n, r, m and the path p, one WITH per step that
+// keeps, renames or drops each of them, and a RETURN of what is left.
+func renderWith(steps [][]string) string {
+	names := []string{"n", "r", "m", "p"}
+	live := []bool{true, true, true, true}
+	var b strings.Builder
+	b.WriteString("match p = (n)-[r:E]->(m)")
+	for i, st := range steps {
+		var items []string
+		for v := range names {
+			if !live[v] || v >= len(st) {
+				continue
+			}
+			switch st[v] {
+			case "keep":
+				items = append(items, names[v])
+			case "rename":
+				nn := fmt.Sprintf("%s%d", names[v][:1], i+1)
+				items = append(items, names[v]+" as "+nn)
+				names[v] = nn
+			default:
+				live[v] = false
+			}
+		}
+		b.WriteString(" with " + strings.Join(items, ", "))
+	}
+	var rest []string
+	for v := range names {
+		if live[v] {
+			rest = append(rest, names[v])
+		}
+	}
+	b.WriteString(" return " + strings.Join(rest, ", "))
+	return b.String()
 }
